@@ -195,17 +195,37 @@ pub fn run(ws: &[&str]) -> String {
         Some(v) => v,
         None => return BAD.into(),
     };
+    // the transport's error TYPE varies from failure to failure (the library's own HttpClientError
+    // with each of its variants, http::Error and io::Error included): a failure is a failure
+    let fail_no = std::cell::Cell::new(0usize);
+    let typed_reply = |r: HttpRequest| -> Result<HttpResponse, oauth2::HttpClientError<FakeError>> {
+        next_reply(r).map_err(|e| {
+            let n = fail_no.get();
+            fail_no.set(n + 1);
+            match n % 4 {
+                0 => oauth2::HttpClientError::Other(e.0),
+                1 => oauth2::HttpClientError::Http(http::Error::from(http::StatusCode::from_u16(0).unwrap_err())),
+                2 => oauth2::HttpClientError::Io(std::io::Error::new(std::io::ErrorKind::ConnectionReset, e.0)),
+                _ => oauth2::HttpClientError::Reqwest(Box::new(e)),
+            }
+        })
+    };
     let res = if var.is_sync() {
-        render_result(&req.request(&next_reply, log_sleep, timeout))
+        render_result(&req.request(&typed_reply, log_sleep, timeout))
     } else {
         // every inner future reports Pending k times first
         let k = var.k();
-        let http = |r: HttpRequest| Delay { n: k, v: Some(next_reply(r)) };
+        let http = |r: HttpRequest| Delay { n: k, v: Some(typed_reply(r)) };
         let sleep = |d: Duration| {
             log_sleep(d);
             Delay { n: k, v: Some(()) }
         };
-        render_result(&var.drive(req.request_async(&http, sleep, timeout)))
+        // a future does nothing until it is polled: no clock reading, request or wait at creation
+        let fut = req.request_async(&http, sleep, timeout);
+        if seq.load(std::sync::atomic::Ordering::SeqCst) != 0 {
+            return "eager-future".to_string();
+        }
+        render_result(&var.drive(fut))
     };
     let mut all: Vec<(usize, String)> = time_log.lock().unwrap().clone();
     all.extend(other_log.borrow().iter().cloned());
